@@ -29,11 +29,12 @@ REAL = ["BPTK_Py.modeling.simultaneousScheduler.SimultaneousScheduler.run/run_st
         "BPTK_Py.modeling.agent.Agent (receive_event, handle_events, handlers)", "BPTK_Py.modeling.model.Model (enqueue_event, registry)",
         "BPTK_Py.modeling.event (Event, DelayedEvent)", "BPTK_Py.modeling.dataCollector"]
 STUB = ["agents and model are scripted harness subclasses of Agent/Model (act performs the scripted sends, handlers record)"]
-ASSUMPTIONS = ["delays and dt are decimal literals with at most 6 decimals (0.3, not 0.30000000000000004)",
+ASSUMPTIONS = ["deletions from inside act remove the acting agent itself or an agent created before it (never a later one, whose fate in that step the property leaves open)",
+               "delays and dt are decimal literals with at most 6 decimals (0.3, not 0.30000000000000004)",
                "population changes happen between steps and in the two round hooks only, never inside act",
                "order is checked only between events sent to the same agent in the same step and handled in the same step"]
 FAULT_KINDS = ["agent_deleted_with_events_in_flight", "reconfiguration_with_events_in_flight", "send_to_dead_id", "delayed_event"]
-PROBES = ["sent_from_round_hook", "broadcast_event", "event_to_deleted_agent", "event_after_ids_shifted", "delayed_odd_wait", "non_multiple_delay", "two_events_same_agent_same_step",
+PROBES = ["deletion_inside_act", "sent_from_round_hook", "broadcast_event", "event_to_deleted_agent", "event_after_ids_shifted", "delayed_odd_wait", "non_multiple_delay", "two_events_same_agent_same_step",
           "delete_in_begin_hook_after_distribution", "decimal_dt_delay"]
 EXHAUSTIVE = {"quick": False, "thorough": False}
 
@@ -97,6 +98,14 @@ def generate(spec):
                 if rng.random() < 0.7:
                     frm, delay = sends[-1]["from"], sends[-1]["delay"] if sends[-1]["k"] == k else delay
             sends.append({"k": k, "from": frm, "uid": uid, "to": to, "delay": delay, "name": rng.choice(["ping", "pong"])})
+    # deletions from inside act (the acting agent itself, or one created before it: both have already
+    # handled their events and acted in this step)
+    acts = []
+    if churn:
+        for k in range(1, steps + 1):
+            if rng.random() < 0.08 and next_id > 1:
+                a = rng.randrange(0, next_id)
+                acts.append({"k": k, "by": a, "op": "delete", "id": rng.choice([a, a, rng.randrange(0, a + 1)])})
     # events sent by the model itself from inside the round hooks, incl. broadcasts to all agents of a type
     hook_sends = []
     for k in range(1, steps + 1):
@@ -109,7 +118,7 @@ def generate(spec):
             else:
                 hook_sends.append({"k": k, "where": where, "uid": uid, "to": rng.randrange(0, next_id + 1),
                                    "delay": rng.choice([None, round(dt, 6)]), "name": "ping"})
-    return {"property": PROPERTY, "dt": dt, "steps": steps, "drive": drive, "init": init, "pop": pop, "sends": sends, "hook_sends": hook_sends}
+    return {"property": PROPERTY, "dt": dt, "steps": steps, "drive": drive, "init": init, "pop": pop, "sends": sends, "hook_sends": hook_sends, "acts": acts}
 
 
 def expected_wait(delay, dt):
@@ -156,6 +165,11 @@ def execute(case):
         res.probe("sent_from_round_hook")
         if "broadcast" in hs:
             res.probe("broadcast_event")
+    acts_at = {}
+    for a in case.get("acts", ()):
+        w.act_ops.setdefault((a["k"], a["by"]), []).append({"op": a["op"], "id": a["id"]})
+        acts_at.setdefault(a["k"], []).append(a)
+        res.probe("deletion_inside_act")
     raised = None
     ids_shifted = False
 
@@ -163,6 +177,13 @@ def execute(case):
         nonlocal ids_shifted
         if op["op"] in ("delete", "configure"):
             ids_shifted = True
+
+    def apply_acts(k):
+        # agents act in list order; an act deletion only happens if its acting agent is still alive at that moment
+        for a in sorted(acts_at.get(k, ()), key=lambda a: list(sh["live"]).index(a["by"]) if a["by"] in sh["live"] else 10**9):
+            if a["by"] in sh["live"]:
+                shadow_apply(sh, {"op": "delete", "id": a["id"]})
+                note_destructive({"op": "delete"})
 
     def shadow_step(k):
         # mirror what happens to the population around step k
@@ -186,6 +207,7 @@ def execute(case):
             except Exception as e:
                 raised = (k, type(e).__name__, str(e)[:80])
                 break
+            apply_acts(k)
             for op in hooks.get((k, "end"), ()):
                 shadow_apply(sh, op)
                 note_destructive(op)
@@ -196,6 +218,7 @@ def execute(case):
             dist = set(sh["live"])
             shadow_step(k)
             live_at[k] = (dist, set(sh["live"]))
+            apply_acts(k)
             for op in hooks.get((k, "end"), ()):
                 shadow_apply(sh, op)
                 note_destructive(op)
@@ -297,6 +320,11 @@ def shrink(case):
             c = copy.deepcopy(case)
             c["hook_sends"] = copy.deepcopy(cand)
             yield c
+    if case.get("acts"):
+        for cand in shrink_list(case["acts"]):
+            c = copy.deepcopy(case)
+            c["acts"] = copy.deepcopy(cand)
+            yield c
     for cand in shrink_list(case["sends"]):
         c = copy.deepcopy(case)
         c["sends"] = copy.deepcopy(cand)
@@ -314,6 +342,7 @@ def shrink(case):
                 c["pop"] = [p for p in c["pop"] if p["k"] <= st]
                 c["sends"] = [s for s in c["sends"] if s["k"] < st]
                 c["hook_sends"] = [s for s in c.get("hook_sends", []) if s["k"] <= st]
+                c["acts"] = [s for s in c.get("acts", []) if s["k"] <= st]
                 yield c
     for n, s in enumerate(case["sends"]):
         if s["from"] != "driver":
